@@ -11,6 +11,7 @@ import FordModel.TypeSpec
 import FordModel.Lemmas.TypeSpec
 import FordModel.Lemmas.TypeSpecChar
 import FordModel.Generated.C01TypeSpec
+import FordModel.Lemmas.DeclList
 import FordModel.Mask
 import FordModel.MaskSpec
 import FordModel.Lemmas.Mask
@@ -383,5 +384,45 @@ example :
     (restore id (chars! "bits(2) = [\"0\", \"1\"]") [(chars! "\"1\""), (chars! "\"0\"")]).toOption
       = some (chars! "bits(2) = [\"1\", \"0\"]") ∧
     (mask (chars! "'a'\"b\"")).toOption = some ((chars! "\"0\"\"b\""), [(chars! "'a'")]) := by decide
+
+open Ford.TypeSpec in
+/-- **`double precision` ≡ `doubleprecision` (and `double complex`)**: the two words in any letter case
+    with any run of blanks or none between them are the one type `double precision` (`double complex`),
+    with the same remainder; the spelling never reaches the reported type.  (The blank-less spelling was
+    reported as its own type before fix 222292f.) -/
+theorem double_types_spelling (d : DblT) (t1 ws t2 tail : Str)
+    (h1 : lower t1 = (chars! "double")) (h2 : lower t2 = d.second) (hws : isPad ws = true)
+    (htail : EndsScan (strip tail)) (htn : tail.all (fun c => c != '\n') = true) :
+    parseType (t1 ++ (ws ++ (t2 ++ tail))) = .ok { vartype := d.norm, rest := strip tail } ∧
+    parseType (t1 ++ (t2 ++ tail)) = .ok { vartype := d.norm, rest := strip tail } := by
+  refine ⟨parseType_dbl d t1 ws t2 tail h1 h2 hws htail htn, ?_⟩
+  have := parseType_dbl d t1 [] t2 tail h1 h2 rfl htail htn
+  simpa using this
+
+open Ford.TypeSpec in
+example :
+    (parseType "DoublePrecision :: x".toList).toOption = some { vartype := "double precision".toList, rest := ":: x".toList } ∧
+    (parseType "double   precision, save :: x".toList).toOption
+      = some { vartype := "double precision".toList, rest := ", save :: x".toList } := by decide
+
+open Ford.Show Ford.TypeSpec in
+/-- **Entity list of a declaration: exactly the declared names, once each, in order.**  For any type
+    specification text `T` without a character literal and without `::` inside it, and any number of names,
+    the statement `T :: n1, n2, ..., nk` is recorded as exactly the k entities `n1 ... nk` (no dimension, no
+    initial value, not a pointer assignment) - none missing, none invented, none twice, whichever variant of
+    the initial-value split the working tree has (`line_to_variables` as modelled by `Show.declVarsOpt`, which
+    is compared with the real `line_to_variables` on every run by the `decl` streams of C18 and C02). -/
+theorem declaration_entities_exact (typ n : Str) (ns : List Str) (eqJoin : Bool)
+    (htyp : ∀ c ∈ typ, isQuote c = false ∧ c ≠ ':')
+    (hn : ∀ m ∈ n :: ns, NameOk m ∧ m ≠ []) :
+    declVarsOpt false (typ ++ [' ', ':', ':', ' '] ++ joinStr sepCS (n :: ns)) eqJoin
+      = .ok ((n :: ns).map fun m => ⟨m, [], false, none⟩) :=
+  declVars_names typ n ns eqJoin htyp hn
+
+open Ford.Show in
+example :
+    (declVarsOpt false "real(kind=dp), intent(in) :: alpha, beta_2, g".toList).toOption
+      = some [⟨"alpha".toList, [], false, none⟩, ⟨"beta_2".toList, [], false, none⟩, ⟨"g".toList, [], false, none⟩] := by
+  decide
 
 end Ford.C01
